@@ -24,8 +24,8 @@ void verif_random_reset(uint32_t);
 
 const char *verif_property = "C08";
 const char *verif_class_names[] = { "delete_of_queued_item", "stale_handle_after_slot_reuse", "callback_deletes_itself", "fd_number_reused", "signal_delivered",
-	"signal_deleted_while_queued", "fd_self_remove_by_return", "job_deleted_while_waiting", "timer_deleted_pending", "stop_from_callback", "poll_mod", "many_items", "double_add_refused", NULL };
-enum { K_DELQ, K_STALE, K_SELF, K_FDREUSE, K_SIG, K_SIGDELQ, K_FDRET, K_JOBDEL, K_TMRDEL, K_STOP, K_MOD, K_MANY, K_DOUBLEADD };
+	"signal_deleted_while_queued", "fd_self_remove_by_return", "job_deleted_while_waiting", "timer_deleted_pending", "stop_from_callback", "poll_mod", "many_items", "double_add_refused", "signal_mod", "signal_mod_priority_while_queued", "signal_mod_number", "signal_moved_while_queued_then_deleted", NULL };
+enum { K_DELQ, K_STALE, K_SELF, K_FDREUSE, K_SIG, K_SIGDELQ, K_FDRET, K_JOBDEL, K_TMRDEL, K_STOP, K_MOD, K_MANY, K_DOUBLEADD, K_SIGMOD, K_SIGMODQ, K_SIGMODNUM, K_SIGMODDEL };
 const char *verif_rule =
 	"case = initial registrations + an action list consumed by every callback invocation (add job/timer/fd/signal at a priority, delete own/other/fired/stale handles, poll_mod, "
 	"write/drain pipes, close + reopen an fd number + re-add, raise, stop), <= 300 callback invocations, virtual time; non-trivial = a delete of an item that was already queued for dispatch, "
@@ -341,6 +341,35 @@ static void do_actions(int n)
 			VLOG(R, "      add descriptor %d (fd #%d) a second time -> %d\n", f.rfd, id, rc);
 			if (rc == 0) { VFAIL(R, "double-add-accepted", "qb_loop_poll_add of descriptor %d, which is registered already, returned 0", f.rfd); return; }
 			VCLASS(R, K_DOUBLEADD);
+		}
+		else if (k == 30 && arg % 8 >= 1 && arg % 8 <= 3 && !SIGS.empty()) {	/* signal_mod: a new priority (at any time), or the other signal number (while no delivery is under way) */
+			int id = (arg >> 3) % SIGS.size(); msig &s = SIGS[id];
+			if (!s.reg) continue;
+			token *tk = NULL; for (auto &t : TOK) if (t.kind == SIG && t.idx == id) tk = &t;
+			if (!tk) continue;
+			int np = s.prio, nsig = s.signo;
+			if (arg % 8 == 3) { if (outstanding_raises[0] > 0 || outstanding_raises[1] > 0) continue; nsig = s.signo == SIGUSR1 ? SIGUSR2 : SIGUSR1; }
+			else np = pick_prio();
+			int rc = qb_loop_signal_mod(L, (enum qb_loop_priority)np, nsig, tk, sig_cb, s.h);
+			VLOG(R, "      signal_mod handler #%d: %s -> %s, signal %d -> %d (owed %d) rc %d\n", id, pname(s.prio), pname(np), s.signo, nsig, s.owed, rc);
+			if (rc != 0) { VFAIL(R, "signal-mod", "qb_loop_signal_mod of a registered handler returned %d", rc); return; }
+			VCLASS(R, K_SIGMOD);
+			if (np != s.prio && s.owed > 0) VCLASS(R, K_SIGMODQ);
+			if (nsig != s.signo) VCLASS(R, K_SIGMODNUM);
+			bool moved_while_queued = np != s.prio && s.owed > 0;
+			s.prio = np; s.signo = nsig;
+			recompute_outstanding();
+			if (moved_while_queued && (arg & 64)) {	/* ... and the handler is deleted right away: the delivery queued at its former priority must not run */
+				int others = 0; for (auto &o : SIGS) if (&o != &s && o.reg && o.signo == s.signo) others++;
+				if (others > 0) {
+					int rc2 = qb_loop_signal_del(L, s.h);
+					VLOG(R, "      del signal handler #%d (owed %d, just moved) -> %d\n", id, s.owed, rc2);
+					if (rc2 != 0) { VFAIL(R, "signal-del-refused", "qb_loop_signal_del returned %d", rc2); return; }
+					VCLASS(R, K_SIGDELQ); VCLASS(R, K_DELQ); VCLASS(R, K_SIGMODDEL); nontriv = true;
+					s.reg = false; s.owed = 0;
+					recompute_outstanding();
+				}
+			}
 		}
 		else if (k == 30 && arg % 8 == 0 && in_cb_kind >= 0) {
 			VLOG(R, "      stop\n");
